@@ -43,6 +43,7 @@ def pEvent : P Event := do
     let c ← pCfgN; let d ← many nat; let ok ← pBool; let f ← pOrd; let cr ← pOrd
     pure (.install ⟨l, lid, tm, li, lt, ci, c, d, ok⟩ f cr)
   else if t = "T" then pure .timeoutNow
+  else if t = "K" then do let f ← pOrd; let cr ← pOrd; pure (.snapshot f cr)
   else if t = "R" then pure .restart
   else if t = "RD" then pure .damagedRestart
   else if t = "S" then do
@@ -68,6 +69,7 @@ def pResp : P Resp := do
   else if t = "a" then do let a ← nat; let b ← nat; let c ← pBool; let d ← pBool; pure (.append a b c d)
   else if t = "i" then do let a ← nat; let b ← pBool; let c ← pBool; pure (.install a b c)
   else if t = "t" then pure .timeoutNow
+  else if t = "s" then do let a ← pBool; pure (.snap a)
   else if t = "n" then pure .none
   else failure
 
@@ -240,17 +242,18 @@ def lift (m : Monitor) : UMonitor := fun u st => m u.c st
 def staleMon : UMonitor := fun u st => at_ "stale-entry-kept-below-installed-snapshot" (retainedMatchesHistory u.H st 0)
 def umonC02 : List UMonitor := [ fun u st => at2 "fsm" (fsmTruth u.H st (u.hl.headD 0 :: u.hl) 0 0) ]
 def umonC03 : List UMonitor := [ fun u st => at2 "commit" (commitTruth u.H st (u.hl.headD 0 :: u.hl) 0 0) ]
+def umonSnap : List UMonitor := [ fun u st => at2 "snapshot" (snapshotTruth u.H st (u.hl.headD 0 :: u.hl) 0) ]
 def umonAll : List UMonitor :=
   umonC02 ++ umonC03 ++ (monC06 ++ monC14 ++ monC04 ++ monC11 ++ monC10).map lift ++
-  [ staleMon ]
+  [ staleMon ] ++ umonSnap
 def umonFor : String → List UMonitor
-  | "C02" => umonC02
+  | "C02" => umonC02 ++ umonSnap
   | "C03" => umonC03
   | "C05" => umonC03
   | "C04" => monC04.map lift ++ [ staleMon ]
   | "C06" => monC06.map lift
-  | "C10" => monC10.map lift ++ umonC02
-  | "C11" => monC11.map lift ++ umonC03
+  | "C10" => monC10.map lift ++ umonC02 ++ umonSnap
+  | "C11" => monC11.map lift ++ umonC03 ++ umonSnap
   | "C14" => monC14.map lift
   | "C07" => [ lift (fun _ st => at_ "latest-configuration-names-an-entry-that-is-gone" (latestConfigBacked st 0)) ]
   | "C12" => []
